@@ -1,4 +1,5 @@
 import NucsProofs.Engine.Termination
+import NucsProofs.Engine.DfsTerm
 /-!
   C04 — propagation and search terminate on every finite problem.
 
@@ -20,14 +21,20 @@ import NucsProofs.Engine.Termination
   Per-propagator termination is `Safe <alg>` (no `.fuel` outcome in contract): proved for
   no_sub_cycle (restart loop) and trivially for the closed-form algorithms; for the ported
   alldifferent/gcc pointer chasing it is validated by correspondence (gcc with a zero capacity does
-  spin: known finding K1).  Search termination (`solveOne`) is stated as `C04_search_full`.
+  spin: known finding K1).  Search termination is `C04_search` (and, for the whole enumeration / optimisation with explicit fuels,
+  `C02_enumeration`, `C03_optimum`).  With shaving the inner loop's own fuel bound is not proved (`ConsTerm` is a hypothesis there).
 -/
 namespace Nucs
 
-/-- full statement for the search loop: stated, not proved here (the finite-tree argument needs the
-    partition theorem C09 and the measure Σ_levels (2·|box| − 1)) -/
-def C04_search_full : Prop :=
-  ∀ (P : Problem) (cfg : Config), ProbOk P → WFP P → (∀ p ∈ P.props, Safe p.alg) → P.shr.Nonempty →
-    ∃ fuel, ∀ fuel', fuel ≤ fuel' → solveOne P cfg fuel' (State.init P) ≠ .error .fuel
+/-- the search: from any state satisfying the search invariant, `solve_one` returns (it does not run
+    out of fuel) as soon as `fuel` exceeds the measure Σ_boxes (2·|box| − 1) of the remaining search
+    space — for any consistency algorithm that itself returns (`ConsTerm`: proved for bound consistency
+    by `C04_bcPass`), any heuristics that find a decision on a non-ground box (`HeurOk`: proved when every
+    shared domain is a decision domain), and a stack of height ≥ total width + 2 -/
+theorem C04_search {P : Problem} (cfg : Config) (hcons : ConsOk P cfg) (hterm : Dfs.ConsTerm P cfg)
+    (hheur : Dfs.HeurOk P cfg) (hcost : CostOk cfg) {W : Nat} (hH : W + 2 ≤ cfg.height)
+    (fuel : Nat) (s : State) (hpre : Pre P s) (hh : Dfs.HOk W s.top.doms s.below) (hf : Dfs.smu s < fuel) :
+    ∃ r s', solveOne P cfg fuel s = .ok (r, s') :=
+  Dfs.solveOne_terminates cfg hcons hterm hheur hcost hH fuel s hpre hh hf
 
 end Nucs
